@@ -476,6 +476,12 @@ def run(ctx):
     import totality as _T
     import C01 as _c01
     _common.rejection_inventory(ctx, 'Q1')
+    # a sprite with tilesets must load with them: the user data chunks Aseprite writes after a tileset chunk (for the tileset and its
+    # tiles) go through the attachment state machine, which must not run into its "dangling user data" refusal (seed C08-p reset the
+    # context after the sprite's own record) - C10's rules on that machine, under this property's rule Q6
+    import C10 as _c10q
+    import rule as _Rq
+    _c10q.run(_Rq.View(ctx, {k_: 'Q6' for k_ in ('S1', 'S2', 'S3', 'S4', 'S5', 'S6', 'S7', 'S8')}))
     _c01.dispatch_always_decodes(ctx, 'Q4')
     vt = ctx.anchor('asefile::tilemap::TilemapData::validate_tile_ids')
     if vt is not None:
